@@ -5,6 +5,7 @@
 //! cull ∈ {b, f, n}:
 //! extra section:  | <applicable 0/1> <written pixel counts: A/b A/f B/b B/f A/n B/n>
 //!                   <number of pixels that differ between A/n and B/n> <up to 8 of them: x y>
+//!                 | <prims.o of the same six renders>
 use vharness::render_common::*;
 use vharness::util::*;
 
@@ -18,6 +19,7 @@ pub fn run(t: &[&str]) -> String {
     let mut out = fmt_output(&s, &o, true);
     if s.tris.len() == 1 && s.sh == 0 && s.cw {
         let mut counts = vec![];
+        let mut prims_o = vec![];
         let mut imgs = vec![];
         for order in 0..2 {
             for cull in ['b', 'f', 'n'] {
@@ -30,6 +32,7 @@ pub fn run(t: &[&str]) -> String {
                 s2.hist = vec![(s.sort, vec![0])];
                 let r = run_scene(&s2, s.door);
                 counts.push(written(&r));
+                prims_o.push(r.stats[2]);
                 if cull == 'n' {
                     imgs.push(r.color.iter().map(|&c| c != SENTINEL_COLOR).collect::<Vec<bool>>());
                 }
@@ -41,6 +44,8 @@ pub fn run(t: &[&str]) -> String {
         for i in diff.iter().take(8) {
             out += &format!(" {} {}", *i as u32 % s.w, *i as u32 / s.w);
         }
+        // prims.o of the same six renders: A/b A/f B/b B/f A/n B/n
+        out += &format!(" | {} {} {} {} {} {}", prims_o[0], prims_o[1], prims_o[3], prims_o[4], prims_o[2], prims_o[5]);
     } else {
         out += " | 0";
     }
